@@ -99,6 +99,34 @@ MUTANTS = [
      "                ess = effective_sample_size(samples.log_weights(0.5 * (beta + samples.beta)))\n"),
     ("c18-resume-dup", ["C18"], S + "samplers/smc/base.py",
      "        if store_sample_history and not resumed:", "        if store_sample_history:"),
+    # ---- C13
+    ("c13-none-sentinel", ["C13"], S + "utils.py",
+     "        if value == \"__none__\":\n            return None", "        if value == \"__none__\":\n            return \"None\""),
+    ("c13-empty-dict-lost", ["C13"], S + "utils.py",
+     "            if isinstance(value, dict) and value:\n                _save_flattened(g, full_key, value)",
+     "            if isinstance(value, dict):\n                _save_flattened(g, full_key, value)"),
+    ("c13-no-scalar-collapse", ["C13"], S + "utils.py",
+     "    if isinstance(value, np.generic):\n        # Scalar datasets are read as NumPy scalars\n        return value.item()\n", ""),
+    ("c13-samples-forget-beta", ["C13", "C11"], S + "samples.py",
+     "        dictionary[\"dtype\"] = encode_dtype(self.xp, self.dtype)\n",
+     "        dictionary[\"dtype\"] = encode_dtype(self.xp, self.dtype)\n        if dictionary.get(\"beta\") == 0.0:\n            dictionary[\"beta\"] = None\n"),
+    ("c13-history-drops-last-population", ["C13"], S + "history.py",
+     "        dictionary[\"__len_sample_history\"] = len(sample_history)", "        dictionary[\"__len_sample_history\"] = max(len(sample_history) - 1, 0) if len(sample_history) > 3 else len(sample_history)"),
+    ("c13-affine-state-not-loaded", ["C13", "C03"], S + "transforms.py",
+     "        if self.affine_transform:\n            affine_grp = h5_file[\"affine_transform\"]\n            self._affine_transform._load_state(affine_grp)",
+     "        if self.affine_transform and self.bounded_parameters:\n            affine_grp = h5_file[\"affine_transform\"]\n            self._affine_transform._load_state(affine_grp)"),
+    ("c13-zuko-kwargs-not-expanded", ["C13", "C03"], S + "flows/torch/flows.py",
+     "        kwargs = config.pop(\"kwargs\", {})\n        config.update(kwargs)\n        obj = self(**config)", "        obj = self(**config)"),
+    ("c13-config-drops-eps", ["C13"], S + "aspire.py",
+     "            \"eps\": self.eps,\n            \"dtype\": _dtype_to_name(self.dtype),", "            \"dtype\": _dtype_to_name(self.dtype),"),
+    ("c13-flow-kwargs-nested", ["C13"], S + "aspire.py",
+     "        aspire = Aspire(**config_dict, **flow_kwargs)", "        aspire = Aspire(**config_dict, flow_kwargs=flow_kwargs)"),
+    ("c13-flat-samples-lose-dtype", ["C13"], S + "samples.py",
+     "        dictionary[\"dtype\"] = decode_dtype(\n            dictionary[\"xp\"], dictionary[\"dtype\"]\n        )",
+     "        dictionary[\"dtype\"] = None if \"samples\" not in dictionary else decode_dtype(\n            dictionary[\"xp\"], dictionary[\"dtype\"]\n        )"),
+    ("c13-eps-not-saved-probit", ["C13"], S + "transforms.py",
+     "        return super().config_dict() | {\n            \"eps\": self.eps,\n        }\n\n\nclass LogitTransform",
+     "        return super().config_dict()\n\n\nclass LogitTransform"),
     # ---- C15
     ("c15-to-namespace-drops-logq", ["C15"], S + "samples.py",
      "            log_q=self.log_q,\n            xp=xp,\n            device=self.device,\n            dtype=dtype,",
